@@ -9,7 +9,7 @@ ENV = ["env/plat_seq.c", "env/logger_stub.c", "env/devstr_stub.c", "lib/mem_loop
 
 def framing(timeout=900):
     return H("source_framing", "harness/runtime/source_unit.c", repo=SRC_UNIT, env=ENV, defines=["MODE=2", "SCN=0", "NMAX=1"],
-             cflags=rc.cflags(VERIF), unwind=3, solver="kissat", timeout=timeout, mem_gb=16,
+             cflags=rc.cflags(VERIF), unwind=5, solver="kissat", timeout=timeout, mem_gb=16,
              what="real video_source_thread, one frame, camera shape fully symbolic (all sample types, plane stride up to 2^37): committed header size = 8*ceil((96+sz)/8), equals the mapped size, shape = camera's, header 8-aligned",
              bounds=dict(frames=1, strides_planes="0..2^37", types="all 8", dims="any 32-bit"))
 
@@ -17,7 +17,7 @@ def framing2(timeout=900):
     h = framing(timeout)
     h.name = "source_framing_shape_change"
     h.defines = ["MODE=2", "SCN=0", "NMAX=2", "TWO_FRAMES=1"]
-    h.unwind = 4
+    h.unwind = 5
     h.what = "real video_source_thread, TWO frames, the camera's shape changes between them (frame 0: 1-byte image, frame 1: fully symbolic shape): each frame is sized and described by its own shape"
     return h
 
